@@ -5,6 +5,7 @@ import (
 	"encoding/json"
 	"fmt"
 	"sort"
+	"strconv"
 	"strings"
 	"testing"
 
@@ -163,6 +164,28 @@ func (w *docWalker) walk(p *synth.Pkg, t *synth.TypeRef, doc any, set func(any),
 						w.add("non_member", path, root, func() { set("zz_not_a_member") })
 					} else if isIntBase(d.Type.Name) {
 						w.add("non_member", path, root, func() { set(json.Number("1977")) })
+						// the nearest non-members: just above the largest and just below the smallest value
+						vals := map[int64]bool{}
+						lo, hi, okVals := int64(0), int64(0), true
+						for i, m := range e.Members {
+							v, err := strconv.ParseInt(m.Val, 10, 64)
+							if err != nil {
+								okVals = false
+								break
+							}
+							vals[v] = true
+							if i == 0 || v < lo {
+								lo = v
+							}
+							if i == 0 || v > hi {
+								hi = v
+							}
+						}
+						if okVals && hi < 1<<30 && lo > -(1<<30) {
+							above, below := hi+1, lo-1
+							w.add("non_member", path, root, func() { set(json.Number(strconv.FormatInt(above, 10))) })
+							w.add("non_member", path, root, func() { set(json.Number(strconv.FormatInt(below, 10))) })
+						}
 					}
 					return
 				}
